@@ -20,6 +20,7 @@ pub const NSLOT: usize = 12;
 // payload type and its life-cycle counters
 
 pub struct Node {
+    pub gen: usize,
     pub id: usize,
     pub next: [AtomicRc<Node>; NFIELD],
     pub wnext: AtomicWeak<Node>,
@@ -35,10 +36,12 @@ static POP_SEQ: [AtomicU64; MAXOBJ] = [Z64; MAXOBJ];
 static DROP_SEQ: [AtomicU64; MAXOBJ] = [Z64; MAXOBJ];
 static PAYLOAD: [AtomicUsize; MAXOBJ] = [Z; MAXOBJ];
 static NEXT_ID: AtomicUsize = AtomicUsize::new(1);
+/// Scenario generation: life-cycle events of nodes created by earlier scenarios are ignored.
+static GEN: AtomicUsize = AtomicUsize::new(0);
 
 unsafe impl RcObject for Node {
     fn pop_edges(&mut self, out: &mut Vec<Rc<Self>>) {
-        if self.id < MAXOBJ {
+        if self.id < MAXOBJ && self.gen == GEN.load(SeqCst) {
             if NPOP[self.id].fetch_add(1, SeqCst) == 0 {
                 POP_SEQ[self.id].store(alloc::SEQ.fetch_add(1, SeqCst), SeqCst);
             }
@@ -50,7 +53,7 @@ unsafe impl RcObject for Node {
 }
 impl Drop for Node {
     fn drop(&mut self) {
-        if self.id < MAXOBJ {
+        if self.id < MAXOBJ && self.gen == GEN.load(SeqCst) {
             if NDROP[self.id].fetch_add(1, SeqCst) == 0 {
                 DROP_SEQ[self.id].store(alloc::SEQ.fetch_add(1, SeqCst), SeqCst);
             }
@@ -63,7 +66,7 @@ fn new_node(next0: Rc<Node>) -> Rc<Node> {
     assert!(id < MAXOBJ);
     NPOP[id].store(0, SeqCst);
     NDROP[id].store(0, SeqCst);
-    let rc = Rc::new(Node { id, next: [AtomicRc::from(next0), AtomicRc::null()], wnext: AtomicWeak::null() });
+    let rc = Rc::new(Node { gen: GEN.load(SeqCst), id, next: [AtomicRc::from(next0), AtomicRc::null()], wnext: AtomicWeak::null() });
     register(id, verif::rc_word(&rc), rc.as_ref().unwrap());
     rc
 }
@@ -336,9 +339,15 @@ pub fn exec(st: &mut WState, op: Op) -> Res {
             let id = NEXT_ID.fetch_add(1, SeqCst);
             NPOP[id].store(0, SeqCst);
             NDROP[id].store(0, SeqCst);
-            let mk = || Node { id, next: [AtomicRc::null(), AtomicRc::null()], wnext: AtomicWeak::null() };
+            let mk = || Node { gen: GEN.load(SeqCst), id, next: [AtomicRc::null(), AtomicRc::null()], wnext: AtomicWeak::null() };
             let v: Vec<Rc<Node>> = match n {
-                0 => Rc::new_many::<0>(mk()).into_iter().collect(),
+                0 => {
+                    alloc::capture_next(verif::block_layout::<Node>().1, id);
+                    let a = Rc::new_many::<0>(mk());
+                    let addr = alloc::captured();
+                    assert!(addr != 0, "new_many::<0> did not allocate");
+                    a.into_iter().collect()
+                }
                 1 => Rc::new_many::<1>(mk()).into_iter().collect(),
                 2 => Rc::new_many::<2>(mk()).into_iter().collect(),
                 3 => Rc::new_many::<3>(mk()).into_iter().collect(),
@@ -356,13 +365,12 @@ pub fn exec(st: &mut WState, op: Op) -> Res {
             let id = NEXT_ID.fetch_add(1, SeqCst);
             NPOP[id].store(0, SeqCst);
             NDROP[id].store(0, SeqCst);
-            let node = Node { id, next: [AtomicRc::null(), AtomicRc::null()], wnext: AtomicWeak::null() };
+            let node = Node { gen: GEN.load(SeqCst), id, next: [AtomicRc::null(), AtomicRc::null()], wnext: AtomicWeak::null() };
+            alloc::capture_next(verif::block_layout::<Node>().1, id);
             let iter = Rc::new_many_iter(node, n);
-            // NewRcIter = { remain: usize, ptr } ; read the pointer word to register the block
-            let words: [usize; 2] = unsafe { std::mem::transmute_copy(&iter) };
-            let w = if words[0] == n { words[1] } else { words[0] };
-            let (addr, _, _) = verif::split_word::<Node>(w);
-            alloc::track(id, addr);
+            let addr = alloc::captured();
+            assert!(addr != 0, "new_many_iter did not allocate");
+            let w = addr;
             r.vals.push(id);
             r.vals.push(w);
             st.its[it] = Some(iter);
@@ -568,9 +576,16 @@ pub fn exec(st: &mut WState, op: Op) -> Res {
         }
         Op::Flush => st.g().flush(),
         Op::Collect => {
-            let g = circ::cs();
-            g.flush();
-            drop(g);
+            // one collect() pops at most 16 bags; repeat until a pass finds fewer than that expired
+            for _ in 0..64 {
+                let before = POPS.load(SeqCst);
+                let g = circ::cs();
+                g.flush();
+                drop(g);
+                if POPS.load(SeqCst) - before < 16 {
+                    break;
+                }
+            }
         }
         Op::ReleaseAll => {
             st.sns.iter_mut().for_each(|s| *s = None);
@@ -608,7 +623,16 @@ static MAILBOX: Mutex<Vec<(usize, usize, Option<Rc<Node>>, Option<Weak<Node>>)>>
 
 static EVENTS: Mutex<Vec<(u32, usize, u64, u64, usize)>> = Mutex::new(Vec::new());
 
+static POPS: AtomicUsize = AtomicUsize::new(0);
+
 pub fn ev_hook(kind: u32, addr: usize, a: u64, b: u64) {
+    if kind == site::EV_POP_BAG {
+        POPS.fetch_add(1, SeqCst);
+        return;
+    }
+    if kind >= site::EV_PIN {
+        return;
+    }
     if let Ok(mut e) = EVENTS.lock() {
         e.push((kind, addr, a, b, verif::global_epoch()));
     }
@@ -729,7 +753,13 @@ impl Ctl {
 
     /// Starts a new scenario: fresh shadow, fresh object ids, quarantine emptied.
     pub fn reset(&mut self, label: &str) {
-        alloc::release_all();
+        // blocks are really freed only if the previous scenario ended clean; otherwise deferred
+        // functions of that scenario may still run later and must find their memory intact
+        let n = alloc::ntracked();
+        let clean = self.tasks.is_empty() && self.panics.is_empty() && (1..=n).all(|id| alloc::nfree(id) > 0) && self.all_idle();
+        alloc::release_all(clean);
+        GEN.fetch_add(1, SeqCst);
+        MAILBOX.lock().unwrap().clear();
         alloc::enable(true);
         NEXT_ID.store(1, SeqCst);
         for i in 0..MAXOBJ {
